@@ -6,6 +6,7 @@ import shutil
 import tempfile
 
 import common as C
+import c17_sizes as DS
 
 COQ_FILES = ("L5_Stores/Codec.v", "L5_Stores/CodecProofs.v", "Properties/C17.v")
 EXTRACTED = ("ConstCodec",)
@@ -248,6 +249,145 @@ def check_killed(rep, rng, n):
     return len(cases), n_killed
 
 
+# ------------------------------------------------------------------ the size dimension (values described in c17_sizes.py)
+
+SIZED_TYPE_NAMES = {"str": "str", "bytes": "bytes", "bytearray": "bytearray", "object": "dict", "ints": "list", "user": "drive_codec.UserThing",
+                    "strsub": "drive_codec.TaggedStr", "frame": "pandas.core.frame.DataFrame"}
+# registrations under which the large values are WRITTEN by user codecs (the driver imports the user class from the module drive_codec)
+SIZED_USER_PRE = [{"kind": "codec", "ref": "user.strc", "type": "str"}, {"kind": "codec", "ref": "user.bytesc", "type": "bytes"},
+                  {"kind": "codec", "ref": "user.thing", "type": "user"}]
+
+
+def sized_cases(rng, tier, quick):
+    """The cases of the size dimension: every family at the small boundaries, then the large values by groups of one kind, each group under its own
+    registrations; a part of each group also goes through the public API."""
+    texts, blobs, others = DS.quick_large() if quick else DS.thorough_large()
+    n_random = 6 if quick else 60
+    drawn = [DS.random_sized(rng, DS.SMALL + (DS.QUICK_LARGE if quick else DS.THOROUGH_LARGE)) for _ in range(n_random)]
+    texts, blobs = texts + [s for s in drawn if s["type"] == "str"], blobs + [s for s in drawn if s["type"] != "str"]
+
+    def regs():
+        pre = rng.sample(REGS, rng.choice([0, 0, 0, 1]))
+        mid = rng.sample(REGS, rng.choice([1, 2, 3]))
+        second = pre + [r for r in mid if r not in pre]
+        rng.shuffle(second)
+        return {"pre": pre, "mid": mid, "second": second, "cache": rng.choice([None, None, True, 2])}
+
+    small = DS.small_catalogue()
+    cases = [dict(pre=[], mid=[REGS[0]], second=[REGS[0]], cache=None, values=small, api=list(range(0, len(small), 4 if quick else 1)))]
+    per = 8 if quick else 12
+    for group, api_every in ((texts, 2 if quick else 3), (blobs, 2), (others, 1)):
+        for k in range(0, len(group), per):
+            vals = group[k:k + per]
+            cases.append(dict(pre=[], mid=[REGS[0]], second=[REGS[0]], cache=None) if k == 0 else regs())
+            cases[-1].update(values=vals, api=list(range(k // per % api_every, len(vals), api_every)))
+    # large values written by USER codecs (and the builtin ones for the types without a user codec), read back after other registrations
+    written_by_user = [texts[2], texts[5], blobs[2], others[2], others[0]] if quick else texts[3:40:6] + blobs[1:8:3] + others[:4]
+    second = SIZED_USER_PRE + [REGS[0]]
+    rng.shuffle(second)
+    cases.append(dict(pre=SIZED_USER_PRE, mid=[REGS[0]], second=second, cache=None, values=written_by_user, api=[0, 2, 3]))
+    return cases
+
+
+def run_sized(case):
+    d = tempfile.mkdtemp(prefix="c17z_", dir=C.scratch_dir())
+    try:
+        p = {"dir": d, "values": case["values"], "api": case["api"], "cache_objects": case.get("cache")}
+        o1 = C.run_driver("drive_codec_size.py", dict(p, phase="write", pre=case["pre"], mid=case["mid"]), timeout=1800)
+        o2 = C.run_driver("drive_codec_size.py", dict(p, phase="read", pre=case["second"]), timeout=1800)
+        return {"sized_case": case, "o1": o1, "o2": o2}
+    except Exception as e:  # noqa
+        return {"sized_case": case, "error": str(e)[-400:]}
+    finally:
+        shutil.rmtree(d, ignore_errors=True)
+
+
+def sized_reg_coq(r):
+    return reg_coq(r).replace(C.hexs("__main__.UserThing"), C.hexs(SIZED_TYPE_NAMES["user"]))
+
+
+def seen(o):
+    """short description of what a channel gave"""
+    if not isinstance(o, dict):
+        return str(o)[:90]
+    if "h" in o:
+        at = f", first difference at offset {o['first_diff']}" if o.get("first_diff") is not None else ""
+        return f"a {o['t']} of {o['n']} characters / {o['b']} bytes, sha256 {o['h'][:12]}" + at if o["t"] != "bytes" else f"{o['b']} bytes, sha256 {o['h'][:12]}" + at
+    return f"a {o.get('t')}: {o.get('cmp', o.get('repr'))}"[:160]
+
+
+def check_sized(rep, res, model):
+    """Expected: the value that plain execution gives (built here from the same description): its type, its length in characters and in bytes and the
+    SHA-256 of its UTF-8 text / of its bytes, for the value read back on every channel and - when the builtin text / bytes codec wrote it - for the file."""
+    found = {}                      # key -> [(size, description, replay)]
+    dist = {"values": 0, "bytes_written_at_store_level": 0, "through_public_api": 0, "comparisons": 0, "by_type": {}, "written_by_user_codecs": 0}
+
+    def differs(key, spec, what, case, i):
+        size = sum(n for _, n in spec["segs"])
+        found.setdefault(key, []).append((size, f"{DS.describe(spec)}: {what}", {"sized_case": dict(case, values=[spec], api=[0] if i in case["api"] else [])}))
+
+    mi = 0
+    for r in res:
+        c = r["sized_case"]
+        rep.case("sized:" + json.dumps(c)[:400], nontrivial=True)
+        if "error" in r:
+            rep.violation("harness-error:c17sized", r["error"][-300:], r, no_input=True)
+            mi += len(c["values"])
+            continue
+        regs = f" (registrations before the write {[x['ref'] for x in c['pre']]}, between write and read {[x['ref'] for x in c['mid']]}, in the second process {[x['ref'] for x in c['second']]})"
+        if c["api"] and r["o1"]["top"].get("eval") != "ok":
+            rep.violation("api:evaluation-fails:sized", f"dds.eval of a pipeline keeping {[DS.describe(c['values'][i]) for i in c['api']][:4]}... fails: {r['o1']['top'].get('eval')}" + regs,
+                          {"sized_case": c})
+        for i, (spec, w, x) in enumerate(zip(c["values"], r["o1"]["values"], r["o2"]["values"])):
+            m = model[mi]
+            mi += 1
+            t = spec["type"]
+            dist["values"] += 1
+            dist["by_type"][t] = dist["by_type"].get(t, 0) + 1
+            dist["through_public_api"] += i in c["api"]
+            dist["written_by_user_codecs"] += m.startswith("user.")
+            verbatim = t in ("str", "bytes", "bytearray")
+            want = DS.digest(DS.build(spec)) if verbatim else None
+            dist["bytes_written_at_store_level"] += want["b"] if want else 0
+
+            def same(o, file=False):
+                """o is the value (file=False) / a file holding exactly the value"""
+                dist["comparisons"] += 1
+                if not isinstance(o, dict):
+                    return False
+                if not verbatim:
+                    return o.get("cmp") == "equal"
+                return (o.get("b"), o.get("h")) == (want["b"], want["h"]) and (file or (o.get("t"), o.get("n")) == (want["t"], want["n"]))
+
+            expected = f"; expected {seen(want)}" if verbatim else "; expected the value that plain execution gives"
+            if w.get("stored") != m or x.get("stored") != m:
+                differs("model-mismatch:codec-selection:sized", spec, f"written with {w.get('stored')} (metadata read by the second process: {x.get('stored')}), the model of the registry "
+                        f"selects {m}" + regs, c, i)
+                continue
+            for proc, o in (("same-process", w), ("second-process", x)):
+                if not same(o.get("fetch")):
+                    differs(f"read-back-differs:{t}:sized:fetch_blob:{proc}", spec, f"written with {m}, fetch_blob gives {seen(o.get('fetch'))}" + expected + regs, c, i)
+                if verbatim and m in ("local.string", "local.bytes") and not same(o.get("raw"), file=True):
+                    differs(f"not-verbatim:{t}:sized:blob-file", spec, f"written with {m}, the blob file holds {seen(o.get('raw'))} ({proc})" + expected + regs, c, i)
+                if i not in c["api"]:
+                    continue
+                for ch, name in (("keep", "a second dds.keep"), ("load", "dds.load")):
+                    if not same(o.get(ch)):
+                        differs(f"read-back-differs:{t}:sized:api-{ch}:{proc}", spec, f"kept through dds.keep (written with {o.get('protocol')}): {name} gives {seen(o.get(ch))}"
+                                + expected + regs, c, i)
+                if (verbatim and o.get("protocol") in ("local.string", "local.bytes") or t == "frame") and not same(o.get("tool"), file=True):
+                    differs(f"not-verbatim:{t}:sized:data-directory-file", spec, f"kept through dds.keep (written with {o.get('protocol')}): the file under the data directory holds "
+                            f"{seen(o.get('tool'))} ({proc})" + expected + regs, c, i)
+            if i in c["api"] and (w.get("executed") != 1 or w.get("executed_again") != 0 or x.get("executed_again") != 0):
+                differs(f"api:not-served-from-the-store:{t}:sized", spec, f"its function ran {w.get('executed')} time(s) during the evaluation, {w.get('executed_again')} / "
+                        f"{x.get('executed_again')} more time(s) when kept again in the same / in another process" + regs, c, i)
+    for key, items in sorted(found.items()):
+        items.sort(key=lambda it: it[0])
+        others = sorted({it[1].split(":")[0] for it in items[1:]} - {items[0][1].split(":")[0]})
+        rep.violation(key, f"{len(items)} observation(s) on values at a size boundary; smallest: {items[0][1][:900]}" + (f"; also: {'; '.join(others)[:400]}" if others else ""), items[0][2])
+    return dist
+
+
 def run(rep, tier, seed, proof_ok):
     rng = random.Random(seed)
     rep.rule = ("values of every storable type (str: empty / ascii / non-ASCII incl. astral / 200 kB / CR, CRLF and other line separators, NUL, BOM; bytes: empty / binary / 140 kB; bytearray; "
@@ -264,6 +404,14 @@ def run(rep, tier, seed, proof_ok):
                 "pandas.testing.assert_frame_equal (exact cells, dtypes, index labels / dtype / names, column labels / names, categories, freq) + attrs, and the file that the path "
                 "designates under the data directory opened with plain pandas.read_parquet; a frame that pandas itself refuses to write as parquet must be refused loudly with "
                 "nothing readable left; a frame read back exactly as a bare to_parquet / read_parquet round trip alters it is reported under its own key; "
+                "the SIZE dimension: texts, bytes, bytearrays, pickled objects (dict, list, user class, str subclass) and frames whose length sits at P-1 / P / P+1 (and random "
+                "offsets) for P = 2**13 (io buffer), 2**16 (pickle frame), 2**17, 2**20, 2 * 2**20 (thorough: 3 * 2**20, 5 MB, 2**23), crossed with the content class: 1 / 2 / 3 / 4-byte "
+                "UTF-8 characters (thorough: first and last code point of each width) at every misalignment so that a character straddles byte P, P characters vs P bytes (one multi-byte "
+                "character first / middle / last in an ASCII text of P characters), a multi-byte character across every multiple of P, fewer than P characters but more than P bytes, "
+                "mixtures; position-dependent fill (period coprime with 2**k) so that a dropped, repeated or misplaced piece changes the digest; written by the builtin codecs and by "
+                "user codecs, at the store level and through dds.eval / dds.keep; compared - type, number of characters, number of bytes, SHA-256 - with the value that plain execution "
+                "gives, built independently by the harness: fetch_blob, second dds.keep, dds.load in both processes, and the blob file / the data-directory file (verbatim) whenever "
+                "local.string / local.bytes wrote it; the reference recorded is the one the Coq model selects; "
                 "the same values as results of functions kept through the PUBLIC API (dds.eval of a pipeline of dds.keep, then a second dds.keep - which must not execute "
                 "the function -, dds.load, the data-directory file; in the writing process and in a second process; registrations before / between / in the second process; "
                 "with and without the object cache); distinct = distinct case; "
@@ -291,17 +439,27 @@ def run(rep, tier, seed, proof_ok):
         api_cases.append({"pre": pre, "mid": mid, "second": second, "values": rng.sample(FRAME_VALUES, rng.randint(4, 8)) + rng.sample(API_BUILTINS, rng.randint(2, 4)),
                           "cache": rng.choice([None, None, True, 2])})
     shapes = Shapes()
+    quick = tier == "quick" and proof_ok
+    size_cases = sized_cases(random.Random(f"{seed}:sized"), tier, quick)          # its own generator: the other cases of a seed do not move
     with cf.ThreadPoolExecutor(max_workers=C.NPROC) as ex:
         api_futures = [ex.submit(run_api, c) for c in api_cases]
+        size_futures = [ex.submit(run_sized, c) for c in size_cases]
         res = list(ex.map(run_case, cases))
         api_res = [f.result() for f in api_futures]
+        size_res = [f.result() for f in size_futures]
     # model: which reference each write selects, after the pre registrations
     exprs = []
     for c in cases:
         regs = "[" + "; ".join(reg_coq(r) for r in c["pre"]) + "]"
         for v in c["values"]:
             exprs.append(f"run_select {regs} {C.hexs(type_name(v))}")
+    n_exprs = len(exprs)
+    for c in size_cases:
+        regs = "[" + "; ".join(sized_reg_coq(r) for r in c["pre"]) + "]"
+        for v in c["values"]:
+            exprs.append(f"run_select {regs} {C.hexs(SIZED_TYPE_NAMES[v['type']])}")
     model = C.coq_eval_strings(PRELUDE, exprs, label="c17")
+    model, size_model = model[:n_exprs], model[n_exprs:]
     mi = 0
     refs = {}
     n_shape_writes = {}
@@ -362,6 +520,7 @@ def run(rep, tier, seed, proof_ok):
                 if stored_with in ("S:local.string", "S:local.bytes") and x != "R:" + want:
                     rep.violation(f"not-verbatim:{v[0]}", f"the blob file of a {v[0]} result is not the text / the bytes themselves", {"case": c, "value": v[:1], "raw": x[:80]})
     n_api_values = check_api(rep, api_res, shapes)
+    size_dist = check_sized(rep, size_res, size_model)
     shapes.report(rep)
     nk, nk_killed = check_killed(rep, rng, 16 if tier == "quick" and proof_ok else 120)
     rep.extra["input_distribution"] = {"cases": len(cases), "writes_by_selected_reference": refs, "killed_before_metadata_cases": nk, "of_which_reached_the_kill_point": nk_killed,
@@ -370,13 +529,31 @@ def run(rep, tier, seed, proof_ok):
                                        "read_back_comparisons_of_pandas_values": shapes.checked,
                                        "read_back_channels": ["fetch_blob same process", "fetch_blob second process", "data-directory file with plain pandas", "second dds.keep", "dds.load",
                                                               "the last three in a second process"],
-                                       "frames_refused_by_the_parquet_format": sorted(shapes.refused), "frames_altered_by_the_parquet_format": sorted(shapes.as_bare)}
+                                       "frames_refused_by_the_parquet_format": sorted(shapes.refused), "frames_altered_by_the_parquet_format": sorted(shapes.as_bare),
+                                       "size_dimension": dict(size_dist, cases=len(size_cases), boundaries_in_bytes=DS.SMALL + (DS.QUICK_LARGE if quick else DS.THOROUGH_LARGE),
+                                                              character_widths_in_utf8_bytes=[1, 2, 3, 4],
+                                                              families=["pure width-w text of exactly P-1 / P / P+1 bytes at every misalignment", "P-1 / P / P+1 CHARACTERS, one of them "
+                                                                        "multi-byte (first / middle / last)", "one multi-byte character across byte P", "a multi-byte character across every multiple of P",
+                                                                        "fewer than P characters but more than P bytes", "1/2/3/4-byte mixture", "bytes / bytearray of P-1 / P / P+1 bytes",
+                                                                        "dict / list / user class / str subclass (pickle) holding such texts", "frames with more than 2**16 rows"],
+                                                              channels=["fetch_blob", "blob file", "second dds.keep", "dds.load", "data-directory file", "all of them in a second process"])}
     rep.sample({"pre": cases[0]["pre"], "mid": cases[0]["mid"], "value_types": [v[0] for v in cases[0]["values"]]})
 
 
 def replay(path):
     r = json.load(open(path))["replay"]
-    keep = r.get("failing") or ([r["value"]] if is_shape(r.get("value") or ["?"]) else None)
+    if "sized_case" in r:
+        c = r["sized_case"]
+        out = run_sized(c)
+        for spec, w, x in zip(c["values"], (out.get("o1") or {}).get("values", []), (out.get("o2") or {}).get("values", [])):
+            want = DS.build(spec) if spec["type"] in ("str", "bytes", "bytearray") else None
+            print(DS.describe(spec))
+            print("  expected:", seen(DS.digest(want)) if want is not None else "the value that plain execution gives ('equal')")
+            for proc, o in (("process 1", w), ("process 2", x)):
+                print(f"  {proc}: written with {o.get('stored')} / {o.get('protocol')}; " + "; ".join(f"{ch}: {seen(o[ch])}" for ch in ("fetch", "raw", "keep", "load", "tool") if ch in o))
+        print(json.dumps({"top": (out.get("o1") or {}).get("top"), "error": out.get("error")}))
+        return 1
+    keep =r.get("failing") or ([r["value"]] if is_shape(r.get("value") or ["?"]) else None)
     for k in ("api_case", "case"):
         if keep and k in r:            # only the values that failed
             r[k] = dict(r[k], values=[v for v in r[k]["values"] if v in keep])
